@@ -97,6 +97,22 @@ pub fn check_pair(case: &Case, a: &[u32], b: &[u32]) -> bool {
         case.violation("C20/clock/partial_cmp-disagrees-with-component-wise-order", json!({"pair": wit(), "got": format!("{:?}", got), "expected": format!("{:?}", expected)}));
         return false;
     }
+    // the comparison operators are the user-visible face of the order (`<=`, `<`, `>=`, `>` call
+    // `le`/`lt`/`ge`/`gt`, which a type may override): they must say what the order says
+    let ops = [
+        ("<=", ca <= cb, matches!(expected, Some(Ordering::Less | Ordering::Equal))),
+        ("<", ca < cb, expected == Some(Ordering::Less)),
+        (">=", ca >= cb, matches!(expected, Some(Ordering::Greater | Ordering::Equal))),
+        (">", ca > cb, expected == Some(Ordering::Greater)),
+        ("!=", ca != cb, expected != Some(Ordering::Equal)),
+    ];
+    for (name, got, want) in ops {
+        if got != want {
+            case.violation("C20/clock/comparison-operator-disagrees-with-component-wise-order", json!({"pair": wit(), "operator": name, "got": got, "expected": want}));
+            return false;
+        }
+    }
+    case.add("clock_operator_comparisons", 5);
     let eq = ca == cb;
     if eq != (expected == Some(Ordering::Equal)) {
         case.violation("C20/clock/eq-disagrees-with-partial_cmp", json!({"pair": wit(), "eq": eq}));
@@ -126,7 +142,7 @@ pub fn check_pair(case: &Case, a: &[u32], b: &[u32]) -> bool {
         case.violation("C20/clock/merge_max-is-not-component-wise-max", json!({"pair": wit(), "merge": format!("{}", m), "expected": mv}));
         return false;
     }
-    if !le(ca.partial_cmp(&m)) || !le(cb.partial_cmp(&m)) {
+    if !le(ca.partial_cmp(&m)) || !le(cb.partial_cmp(&m)) || !(ca <= m) || !(cb <= m) || !(m >= ca) || !(m >= cb) {
         case.violation("C20/clock/merge_max-not-an-upper-bound", json!({"pair": wit(), "merge": format!("{}", m)}));
         return false;
     }
@@ -149,7 +165,9 @@ fn check_single(case: &Case, a: &[u32], rng: &mut Rng) -> bool {
     }
     let inc = ca.clone().incremented(i);
     case.add("increments_checked", 1);
-    if ca.partial_cmp(&inc) != Some(Ordering::Less) || inc.partial_cmp(&ca) != Some(Ordering::Greater) {
+    #[allow(clippy::neg_cmp_op_on_partial_ord)]
+    let by_operators = ca < inc && ca <= inc && inc > ca && inc >= ca && !(inc <= ca) && !(ca >= inc) && ca != inc;
+    if ca.partial_cmp(&inc) != Some(Ordering::Less) || inc.partial_cmp(&ca) != Some(Ordering::Greater) || !by_operators {
         case.violation("C20/clock/incremented-not-strictly-greater", json!({"a": a, "index": i, "result": format!("{}", inc)}));
         return false;
     }
@@ -185,7 +203,7 @@ pub fn check_triple(case: &Case, a: &[u32], b: &[u32], c: &[u32]) -> bool {
     if le(ca.partial_cmp(&cc)) && le(cb.partial_cmp(&cc)) {
         case.add("least_upper_bound_instances", 1);
         let m = VectorClock::merge_max(&ca, &cb);
-        if !le(m.partial_cmp(&cc)) {
+        if !le(m.partial_cmp(&cc)) || !(m <= cc) {
             case.violation("C20/clock/merge_max-not-least-upper-bound", wit());
             return false;
         }
